@@ -163,7 +163,7 @@ theorem listMax_le (l : List Nat) : ∀ (init : Nat), init ≤ l.foldl max init 
 
 /-! ### run-length form -/
 
-theorem rleTimes_go (d : Nat) (hd : d < W) : ∀ (xs : List Nat) (prev : Nat), prev < W → (∀ x ∈ xs, x < W) →
+theorem rleTimes_go (d : Nat) (_hd : d < W) : ∀ (xs : List Nat) (prev : Nat), prev < W → (∀ x ∈ xs, x < W) →
     (∀ e ∈ tsDeltas.go prev xs, e = d) → rleTimes ((prev + d) % W) d xs.length = xs := by
   intro xs
   induction xs with
